@@ -675,8 +675,8 @@ func judgeFidelity(r *Run, j *Judged, c *cls) {
 					continue
 				}
 				inm, ims := o.Req.Header.Get("If-None-Match"), o.Req.Header.Get("If-Modified-Since")
-				if (inm == "" && ims == "") || !ets[inm] || !lms[ims] {
-					continue
+				if !((inm != "" && ets[inm]) || (inm == "" && ims != "" && lms[ims])) {
+					continue // (If-Modified-Since may also be the client's own)
 				}
 				chain = append(chain, o)
 				note(o.Header)
